@@ -792,8 +792,64 @@ def effective_jobs(out):
     return max(f['tasks'] for f in out.fanouts)
 
 
+def validate_case(case):
+    """Sanity of the generated / minimised document itself: a call the
+    generator marks valid must really satisfy the documented preconditions that
+    depend on the data (names exist, candidate pairs refer to existing keys,
+    keys are unique and present).  A document that does not is a harness
+    error, never a finding about the library."""
+    for idx, op in enumerate(case['history']):
+        k = op.get('op')
+        if k not in ('join', 'filter_tables', 'filter_candset',
+                     'apply_matcher', 'pipeline'):
+            continue
+        for side in ('l', 'r'):
+            t = op.get(side)
+            if not isinstance(t, str) or t not in case['tables']:
+                raise HarnessError('call %d: unknown table %r' % (idx, t))
+            spec = case['tables'][t]
+            cols = spec['columns']
+            for a in (op.get(side + '_key'), op.get(side + '_attr')):
+                if a not in cols:
+                    raise HarnessError('call %d: column %r not in table %s'
+                                       % (idx, a, t))
+            for a in (op.get(side + '_out') or []):
+                if a not in cols:
+                    raise HarnessError('call %d: output attribute %r not in '
+                                       'table %s' % (idx, a, t))
+            ki = cols.index(op[side + '_key'])
+            keys = [r[ki] for r in spec['rows']]
+            if len(set(keys)) != len(keys) or any(x is None for x in keys):
+                raise HarnessError('call %d: %r is not a key of table %s'
+                                   % (idx, op[side + '_key'], t))
+            if spec['dtypes'].get(op[side + '_attr']) not in (
+                    'object', 'str', 'string'):
+                raise HarnessError('call %d: attribute %r of %s is not a '
+                                   'string column' % (idx, op[side + '_attr'],
+                                                      t))
+        cs = op.get('candset')
+        if isinstance(cs, str) and not cs.startswith('result_of:'):
+            if cs not in case.get('candsets', {}):
+                raise HarnessError('call %d: unknown candidate set %r'
+                                   % (idx, cs))
+            cspec = case['candsets'][cs]
+            lk = set(r[case['tables'][op['l']]['columns'].index(op['l_key'])]
+                     for r in case['tables'][op['l']]['rows'])
+            rk = set(r[case['tables'][op['r']]['columns'].index(op['r_key'])]
+                     for r in case['tables'][op['r']]['rows'])
+            for a, b in cspec['pairs']:
+                if a not in lk or b not in rk:
+                    raise HarnessError('call %d: candidate pair (%r, %r) '
+                                       'refers to a key that does not exist'
+                                       % (idx, a, b))
+            if op.get('c_l') != cspec['l_col'] or \
+                    op.get('c_r') != cspec['r_col']:
+                raise HarnessError('call %d: candidate set columns' % idx)
+
+
 def execute_case(case, collect_samples=False):
     """Run the whole case.  Returns the report."""
+    validate_case(case)
     ssj = install()
     ENV.reset()
     from sim.sched import MODSTATE
